@@ -18,7 +18,7 @@ RULE = ('cases = one real stack against a scripted conforming peer written from 
         'non-trivial = every exchange; distinct = (layer, role, size class, window class, peer policy)')
 ASSUMPTIONS = ['reference leniencies: FD abort bytes, Multi-PG padding bytes and priorities are not judged; PS of a PDU1 PGN in a BAM announcement is normalised',
                'the reference was validated against the literal frame vectors of the pinned suite (tools/selftest.py)']
-MIN_OBS = {'exchanges': {'quick': 900, 'thorough': 20000}, 'stack_originator': {'quick': 400, 'thorough': 9000}, 'stack_responder': {'quick': 300, 'thorough': 7000},
+MIN_OBS = {'exchanges': {'quick': 900, 'thorough': 15000}, 'stack_originator': {'quick': 400, 'thorough': 9000}, 'stack_responder': {'quick': 300, 'thorough': 7000},
            'cts_checked': {'quick': 3000, 'thorough': 80000}, 'dt_checked': {'quick': 20000, 'thorough': 500000}, 'holds_exercised': {'quick': 300, 'thorough': 8000},
            'zero_latency': {'quick': 80, 'thorough': 2000}}
 
